@@ -446,4 +446,60 @@ theorem parse_print (stmts : List BStmt) (hv : ∀ st ∈ stmts, validStmt st = 
   simp only [parseBench, printBench, String.toList_ofList]
   exact parse_layout stmts hv [] (benchTG stmts) rfl rfl (layout_bench stmts)
 
+/-! ## an unclosed comment at the very end -/
+
+theorem headNotName_tail (tail : List Char) (h : tailOK tail = true) : headNotName tail = true := by
+  cases tail with
+  | nil => rfl
+  | cons c body =>
+    simp only [tailOK, Bool.and_eq_true, beq_iff_eq] at h
+    rw [h.1]; simp [headNotName]; decide
+
+theorem headNotName_append (x tail : List Char) (hx : headNotName x = true) (ht : headNotName tail = true) :
+    headNotName (x ++ tail) = true := by
+  cases x with
+  | nil => exact ht
+  | cons c r => exact hx
+
+theorem next_gap_tail (g0 tail : List Char) (hg : gapB .ws g0 = true) (ht : tailOK tail = true) :
+    next (g0 ++ tail) = some (.eof, []) := by
+  rw [next, skipC_gap .ws g0 hg]
+  cases tail with
+  | nil => rfl
+  | cons c body =>
+    simp only [tailOK, Bool.and_eq_true, beq_iff_eq, List.isEmpty_iff] at ht
+    rw [ht.1]
+    simp only [skipC]
+    simp [ht.2, nextRaw]
+
+/-- any layout of a token list, followed by an unclosed `#` comment, lexes back to the token list -/
+theorem lexes_render_tail (tail : List Char) (ht : tailOK tail = true) (l : List (Tok × List Char)) :
+    ∀ (g0 : List Char), gapB .ws g0 = true → (∀ p ∈ l, tokOK p.1 = true) → layoutOK l = true →
+    Lexes (g0 ++ (renderTG l ++ tail)) (l.map (·.1)) := by
+  induction l with
+  | nil => intro g0 hg _ _; simp only [renderTG, List.nil_append, List.map_nil]; exact .nil (next_gap_tail g0 tail hg ht)
+  | cons p r ih =>
+    intro g0 hg hok hl
+    obtain ⟨t, g⟩ := p
+    simp only [layoutOK, Bool.and_eq_true, Bool.or_eq_true, Bool.not_eq_true'] at hl
+    have htk : tokOK t = true := hok (t, g) List.mem_cons_self
+    simp only [renderTG, List.map_cons, List.append_assoc]
+    refine .cons (tokOK_ne_eof t htk) (next_gap_tok g0 t _ hg htk ?_) ?_
+      (ih g hl.1.1 (fun p hp => hok p (List.mem_cons_of_mem _ hp)) hl.2)
+    · intro hn
+      rcases hl.1.2 with h | h
+      · rw [hn] at h; cases h
+      · rw [← List.append_assoc]
+        exact headNotName_append _ tail h (headNotName_tail tail ht)
+    · have := tokText_length_pos t htk
+      simp only [List.length_append]; omega
+
+theorem parse_layout_tail (stmts : List BStmt) (hv : ∀ st ∈ stmts, validStmt st = true) (g0 tail : List Char)
+    (l : List (Tok × List Char)) (hl : l.map (·.1) = benchToks stmts) (hg0 : gapB .ws g0 = true)
+    (hlay : layoutOK l = true) (ht : tailOK tail = true) : parseChars (g0 ++ (renderTG l ++ tail)) = some stmts := by
+  apply parseChars_of_lexes stmts _ hv
+  rw [← hl]
+  refine lexes_render_tail tail ht l g0 hg0 (fun p hp => benchToks_ok stmts hv p.1 ?_) hlay
+  rw [← hl]; exact List.mem_map_of_mem hp
+
 end KV.BenchText
